@@ -1787,7 +1787,16 @@ std::vector<std::string> run_path(const Case& cs, const std::string& prefix)
     double secs = now() - t0;
     std::vector<std::string> out;
     if (st.decisions.size() < prefix.size() && outcome.rfind("infeasible", 0) != 0)
+    {
+        if (getenv("SYMX_DEBUG_DIVERGE"))
+        {
+            std::string d;
+            for (const Decision& x : st.decisions)
+                d += x.outcome ? '1' : '0';
+            fprintf(stderr, "DIVERGE prefix=%s decisions=%s outcome=%s unknown_feas=%d\n", prefix.c_str(), d.c_str(), outcome.c_str(), st.n_unknown_feas);
+        }
         outcome = "replay-divergence:" + outcome;
+    }
     for (const std::string& np : st.new_prefixes)
         out.push_back("NEW\t" + np);
     char buf[256];
